@@ -520,16 +520,6 @@ func (b *Builder) AllComparisonSeries(existing []*ComparisonSeries, dupeHow int)
 						cs.cells[sk] = cc
 					}
 
-					hp, ok := cs.HashPairs[serString]
-					if !ok {
-						cs.HashPairs[serString] = ComparisonHashes{NumHash: hashString, DenHash: tr.baselineHashString}
-					} else {
-						if hp.NumHash != hashString || hp.DenHash != tr.baselineHashString {
-							fmt.Fprintf(os.Stderr, "numerator/denominator mismatch, expected %s/%s got %s/%s\n",
-								hp.NumHash, hp.DenHash, hashString, tr.baselineHashString)
-						}
-					}
-
 				} else { // Current augments, but this will do the wrong thing if one is an old summary; also need to think about "repeat"
 					// augment an existing measurement (i.e., a second experiment on this same datapoint)
 					// fmt.Printf("Augment u:%s,b:%s,ch:%s,cd:%s; cc=%v[n(%d+%d)d(%d+%d)]\n",
@@ -551,6 +541,16 @@ func (b *Builder) AllComparisonSeries(existing []*ComparisonSeries, dupeHow int)
 					if cc.Date < dateString {
 						cc.Date = dateString
 					}
+				}
+
+				// Record the hashes compared at this series point. A trial without
+				// a baseline has no denominator hash to offer; do not let it decide.
+				hp, ok := cs.HashPairs[serString]
+				if !ok || (hp.DenHash == "" && tr.baseline != nil && hp.NumHash == hashString) {
+					cs.HashPairs[serString] = ComparisonHashes{NumHash: hashString, DenHash: tr.baselineHashString}
+				} else if hp.NumHash != hashString || (tr.baseline != nil && hp.DenHash != tr.baselineHashString) {
+					fmt.Fprintf(os.Stderr, "numerator/denominator mismatch, expected %s/%s got %s/%s\n",
+						hp.NumHash, hp.DenHash, hashString, tr.baselineHashString)
 				}
 			}
 		}
